@@ -21,17 +21,19 @@ type World struct {
 	stores  map[int]*gkvlite.Store
 	sfile   map[int]int
 	ro      map[int]bool
+	rmark   map[int]int
 	cfg     int // callback configuration bits for stores opened from now on
 	rc      *refCounter
 	churn   []*gkvlite.Store
 	dropped int
 	lastFired bool
+	concYield func()
 	dead    bool // a hang happened: the process state is no longer trustworthy
 	opTimeo time.Duration
 }
 
 func newWorld() *World {
-	return &World{files: map[int]*memfile.File{}, stores: map[int]*gkvlite.Store{}, sfile: map[int]int{}, ro: map[int]bool{},
+	return &World{files: map[int]*memfile.File{}, stores: map[int]*gkvlite.Store{}, sfile: map[int]int{}, ro: map[int]bool{}, rmark: map[int]int{},
 		opTimeo: 10 * time.Second}
 }
 
@@ -498,6 +500,9 @@ func (w *World) exec(t []string) string {
 			}
 		}
 		return "ok"
+	case "rmfile":
+		delete(w.files, atoi(t[1]))
+		return "ok"
 	case "heapcheck":
 		return w.heapCheck()
 	case "churn":
@@ -633,6 +638,9 @@ func (w *World) exec(t []string) string {
 			}
 			out = append(out, s)
 			cnt++
+			if w.concYield != nil {
+				w.concYield() // a visitor callback is a scheduling point
+			}
 			return stop < 0 || cnt <= stop
 		}
 		var err error
@@ -658,6 +666,68 @@ func (w *World) exec(t []string) string {
 			return e
 		}
 		return shapeOf(w.stores[atoi(t[1])], c)
+	case "appendcheck":
+		return w.appendCheck(atoi(t[1]))
+	case "rmark": // forget the reads made so far
+		if mf := w.files[atoi(t[1])]; mf != nil {
+			w.rmark[atoi(t[1])] = len(mf.Log)
+		}
+		return "ok"
+	case "kreads", "openreads": // the file reads made since the last mark
+		mf := w.files[atoi(t[1])]
+		if mf == nil {
+			return ""
+		}
+		var out []string
+		for _, e := range mf.Log[w.rmark[atoi(t[1])]:] {
+			switch e.Kind {
+			case memfile.Read:
+				out = append(out, fmt.Sprintf("r%d+%d", e.Off, e.Len))
+			case memfile.Stat:
+				out = append(out, "s")
+			case memfile.Write:
+				out = append(out, fmt.Sprintf("w%d+%d", e.Off, e.Len))
+			case memfile.Trunc:
+				out = append(out, fmt.Sprintf("t%d", e.Off))
+			}
+		}
+		w.rmark[atoi(t[1])] = len(mf.Log)
+		return strings.Join(out, ",")
+	case "crashopen": // crashopen F K C F2 S: a new file F2 holding crash image (K,C) of F, opened as S
+		mf := w.files[atoi(t[1])]
+		var img []byte
+		if mf != nil {
+			img = memfile.CrashImage(mf.Mutations(), atoi(t[2]), atoi(t[3]))
+		}
+		nf := memfile.New()
+		if len(img) > 0 {
+			nf.WriteAt(img, 0)
+		}
+		w.files[atoi(t[4])] = nf
+		st, err := gkvlite.NewStoreEx(nf, w.callbacks())
+		if err != nil {
+			return errClass(err)
+		}
+		w.stores[atoi(t[5])] = st
+		w.sfile[atoi(t[5])] = atoi(t[4])
+		return "ok"
+	case "setroot": // setroot S N K P MODE: the value is the store file's last root record, altered
+		n, _ := unhx(t[2])
+		_, c, e := w.coll(atoi(t[1]), n)
+		if e != "" {
+			return e
+		}
+		k, _ := unhx(t[3])
+		p, _ := strconv.ParseInt(t[4], 10, 64)
+		val := []byte("no-root-yet")
+		if mf := w.files[w.sfile[atoi(t[1])]]; mf != nil {
+			if r := lastRootRecord(mf.Bytes()); r != nil {
+				val = alterRoot(r, atoi(t[5]))
+			}
+		}
+		return errClass(c.SetItem(&gkvlite.Item{Key: k, Val: val, Priority: int32(p)}))
+	case "iter":
+		return w.iterOp(t)
 	case "image":
 		mf := w.files[atoi(t[1])]
 		if mf == nil {
